@@ -290,6 +290,42 @@ def wid1(ctx, c):
         c.undecided("NumericValue.hex/hex_len", "rendering-shape-unknown", "", repo.loc(hx, hx.node))
 
 
+def wid6(ctx, c):
+    """WID-6 an operand width derived from a table size must subtract the length of the opcode, which is 2 for page-2/3 instructions."""
+    from ..refs import mc6809
+    repo = ctx.repo
+    eff, _ = ctx.effective_rows()
+    n = 0
+    for f in repo.all_funcs():
+        if not f.module.rel.startswith("cocoasm/"):
+            continue
+        for x in ast.walk(f.node):
+            if isinstance(x, ast.BinOp) and isinstance(x.op, ast.Sub) and isinstance(x.left, ast.Attribute) and x.left.attr.endswith("_sz") and U(x.left.value).endswith("mode"):
+                k = try_fold(x.right, ctx.env)
+                md = x.left.attr[:-3]
+                if not isinstance(k, int):
+                    continue
+                n += 1
+                wrong = sorted(m for m, r in eff.items() if not r.flags["is_pseudo"] and r.modes[md][0] is not None and isinstance(r.modes[md][1], int)
+                               and r.modes[md][1] - k != r.modes[md][1] - mc6809.oplen(r.modes[md][0]))
+                # is the result used as a width (size_hint / shift count / byte count)?
+                used_as_width = False
+                for st in ast.walk(f.node):
+                    if isinstance(st, ast.Assign) and any(y is x for y in ast.walk(st.value)):
+                        nm = U(st.targets[0])
+                        used_as_width = any(nm in U(y) for y in ast.walk(f.node) if isinstance(y, ast.keyword) and y.arg == "size_hint") or \
+                            any(isinstance(y, ast.BinOp) and isinstance(y.op, (ast.LShift, ast.Mult)) and nm in U(y) for y in ast.walk(f.node))
+                    if isinstance(st, ast.keyword) and st.arg == "size_hint" and any(y is x for y in ast.walk(st.value)):
+                        used_as_width = True
+                if wrong and used_as_width:
+                    c.finding("%s:%s - %d" % (f.q, x.left.attr, k), "operand width computed as %s - %d" % (x.left.attr, k),
+                              "%s derives an operand width from %s - %d: that assumes a %d-byte opcode and is wrong for %s (two-byte opcodes)" % (f.q, x.left.attr, k, k, ", ".join(wrong[:8])),
+                              repo.loc(f, x))
+                else:
+                    c.ok("%s:%s - %d" % (f.q, x.left.attr, k), "consistent with the table", repo.loc(f, x))
+    c.ok("repository", "%d width formulas derived from table sizes examined" % n, nontrivial=False)
+
+
 def lay5(ctx, c):
     """LAY-5 emission: bytes = op_code, post_byte, additional, in that order, in the listing and in the image."""
     repo = ctx.repo
@@ -328,4 +364,4 @@ def lay5(ctx, c):
             "the listing concatenates %s" % seq[:3], repo.loc(s, s.node))
 
 
-RULES = {"WID-1": wid1, "WID-3": wid3, "WID-5": wid5, "LAY-5": lay5}
+RULES = {"WID-6": wid6, "WID-1": wid1, "WID-3": wid3, "WID-5": wid5, "LAY-5": lay5}
